@@ -4,9 +4,9 @@
 EXTENDS Validation, TLC
 VARIABLES q
 Rules == RankRules \cup RatingRules
-Profs == {<<>>, [r \in {<<{"A"}, {"B"}>>} |-> R(1)], [r \in {<<{"A", "B"}>>} |-> R(1)], [r \in {<<{"A"}>>} |-> <<1,2>>]}
+Profs == {<<>>, [r \in {<<{"A"}, {"B"}>>} |-> R(1)], [r \in {<<{"A", "B"}>>} |-> R(1)], [r \in {<<{"A"}>>} |-> <<1,2>>], [r \in {<<{"A"}>>} |-> <<5,2>>]}
 SProfs == {<<>>, [b \in {[c \in {"A"} |-> R(1)]} |-> R(1)], [b \in {[c \in {"A"} |-> R(2)]} |-> R(1)], [b \in {[c \in {"A"} |-> <<-1,2>>]} |-> R(1)]}
-Init == q \in [rule : Rules, n : {2, 3}, m : 0..4, m1 : 0..4, quota : {"droop", "bogus"}, vec : {<<R(2), R(1)>>, <<R(1), R(2)>>, <<R(-1)>>},
+Init == q \in [xfer : {"fractional", "random"}, rule : Rules, n : {2, 3}, m : 0..4, m1 : 0..4, quota : {"droop", "bogus"}, vec : {<<R(2), R(1)>>, <<R(1), R(2)>>, <<R(-1)>>},
                noranking : BOOLEAN, prof : Profs, unscored : {0, 1}, sprof : SProfs, gen : {""},
                rcfg : {[rule |-> "GeneralRating", m |-> 1, L |-> R(1), hasK |-> TRUE, k |-> R(1), tb |-> "none"]}]
 Spec == Init /\ [][UNCHANGED q]_q
@@ -14,5 +14,7 @@ Q == [q EXCEPT !.rcfg = [q.rcfg EXCEPT !.rule = IF q.rule \in RatingRules THEN q
 Total_ == Expected(Q) # {} /\ Expected(Q) \subseteq {"ok", "TypeError", "ValueError"}
 OkIffNoViolation == ("ok" \in Expected(Q)) <=> (~TypeViolation(Q) /\ ~ValueViolation(Q))
 BoundaryAccepted == (Q.rule = "Plurality" /\ Q.m = Q.n /\ ~Q.noranking) => Expected(Q) = {"ok"}
+RandomTransferRefusal == (Q.rule = "STV" /\ Q.xfer = "random" /\ Q.prof = [r \in {<<{"A"}>>} |-> <<5,2>>] /\ ~Q.noranking /\ Q.m = 1 /\ Q.quota = "droop")
+                            => Expected(Q) = {"TypeError"}
 BoundaryRefused == (Q.rule = "Plurality" /\ Q.m = Q.n + 1 /\ ~Q.noranking) => Expected(Q) = {"ValueError"}
 =============================================================================
